@@ -37,6 +37,12 @@ pub fn label_search(l: &Labels, out: &mut Vec<&'static str>) {
     if l.learnt >= 4 {
         out.push("learnt>=4");
     }
+    if l.learnt >= 8 {
+        out.push("learnt>=8");
+    }
+    if l.learnt >= 16 {
+        out.push("learnt>=16");
+    }
 }
 
 // =============================================================================== C01
